@@ -412,6 +412,31 @@ def b09(ctx, orc):
         wantd = [d for d in dsorted if ext[id(d)] & e == ext[id(d)]]
         if len(dn) != len(wantd) or any(x is not y for x, y in zip(dn, wantd)):
             fails.append(f'downset of {c.extent!r}: {[x.dindex for x in dn]} != {[x.dindex for x in wantd]}')
+    # two traversals alive at the same time, advanced alternately
+    import itertools as _it
+    pairs = [(cs[0], cs[0]), (cs[0], cs[-1]), (cs[len(cs) // 2], cs[0]), (cs[len(cs) // 2], cs[len(cs) // 3])]
+    for a, b in pairs:
+        for kind in ('upset', 'downset'):
+            la, lb = [], []
+            for x, y in _it.zip_longest(getattr(a, kind)(), getattr(b, kind)()):
+                if x is not None:
+                    la.append(x)
+                if y is not None:
+                    lb.append(y)
+            for who, got in ((a, la), (b, lb)):
+                want = list(getattr(who, kind)())
+                if len(got) != len(want) or any(p is not q for p, q in zip(got, want)):
+                    fails.append(f'{kind} of {who.extent!r} advanced in lockstep with another traversal: '
+                                 f'{[x.index for x in got]} != {[x.index for x in want]}')
+        ua, ub = [], []
+        for x, y in _it.zip_longest(lat.upset_union([a, b]), lat.downset_union([b, a])):
+            if x is not None:
+                ua.append(x)
+            if y is not None:
+                ub.append(y)
+        if [x.index for x in ua] != [x.index for x in lat.upset_union([a, b])] or \
+                [x.index for x in ub] != [x.index for x in lat.downset_union([b, a])]:
+            fails.append(f'upset_union/downset_union of {a.extent!r}, {b.extent!r} advanced in lockstep differ from a lone traversal')
     for ms in _multisets(cs, cap=250):
         es = [ext[id(c)] for c in ms]
         for form in (list(ms), iter(list(ms))):
@@ -911,6 +936,13 @@ def b11(ctx, orc, light=False):
         if lattice_summary(c3.lattice) != summary or _norm(c3.todict()) != _norm(want):
             fails.append(f'fromdict(raw=True) with stored order {pi}: lattice differs: {lattice_summary(c3.lattice)!r}')
             break
+        npi = getattr(b11, '_n', 0)
+        b11._n = npi + 1
+        if npi % 4 == 0 or pi != tuple(range(k)) and npi % 4 == 1:     # the permuted encoding through the JSON form too
+            c4 = C.fromjson(io.StringIO(json.dumps(d2)), raw=True)
+            if lattice_summary(c4.lattice) != summary or _norm(c4.todict()) != _norm(want):
+                fails.append(f'fromjson(raw=True) with stored order {pi}: lattice differs')
+                break
     return fails
 
 
@@ -1098,10 +1130,15 @@ def decoys(concepts, objects, properties, table, battery=None):
     n, m = len(objects), len(properties)
     t1 = [tuple(not c for c in row) for row in table]
     t2 = [tuple(table[(i + 1) % n][(j + 1) % m] for j in range(m)) for i in range(n)]
-    for objs, props, t in ((objects, properties, t1), ([f'x{o}' for o in objects], [f'y{p}' for p in properties], t2)):
+    def flip(i, j):
+        return [tuple((not c) if (a, b) == (i, j) else c for b, c in enumerate(row)) for a, row in enumerate(table)]
+    # neighbouring tables (one cell flipped) share most bit patterns with the observed one but not its derivations
+    variants = [(objects, properties, t1), ([f'x{o}' for o in objects], [f'y{p}' for p in properties], t2),
+                (objects, properties, flip(0, 0)), (objects, properties, flip(n - 1, m - 1))]
+    for k, (objs, props, t) in enumerate(variants):
         d = concepts.Context(objs, props, t)
         d.lattice
-        if battery is not None and n <= 12 and m <= 12:
+        if battery is not None and n <= 12 and m <= 12 and (k < 2 or not getattr(battery, 'heavy', False)):
             try:
                 battery(d, Oracle(objs, props, t))
             except Exception:
